@@ -1,6 +1,7 @@
 package sx
 
 import (
+	"os"
 	"fmt"
 	"go/constant"
 	"go/token"
@@ -91,6 +92,9 @@ type Path struct {
 	// panic is what the contract demands ("panics iff").
 	PanicAllowed *smt.Term
 }
+
+// TraceCalls prints every interpreted call (debugging).
+var TraceCalls = os.Getenv("GOCV_TRACECALLS") != ""
 
 // IsPathEnd reports whether a recovered value is the end-of-path signal.
 func IsPathEnd(r interface{}) (string, bool) {
@@ -578,6 +582,9 @@ func (p *Path) Call(fn *ssa.Function, args []Val, bind []Val, site ssa.Instructi
 	}
 	if len(fn.Blocks) == 0 {
 		panic(unsupported("call of external function without model: " + name))
+	}
+	if TraceCalls {
+		fmt.Fprintf(os.Stderr, "%*scall %s (paths-dec=%d steps=%d)\n", p.Depth, "", name, len(p.Dec), p.Steps)
 	}
 	p.Depth++
 	if p.Depth > 400 {
